@@ -26,6 +26,7 @@ class Bench:
         self.steps = 0
         self.on_event = None              # callback(kind, info) after each transition
         self.on_finished = None
+        self.on_select = None             # callback(name, val, cost, cycle) inside value_selection
 
     # -- wiring -------------------------------------------------------------------------------
     def add(self, comp):
@@ -43,6 +44,8 @@ class Bench:
 
             def sel(val, cost, cycle, _o=orig_sel, _n=name):
                 bench.selections.append((_n, val, cost, cycle))
+                if bench.on_select:
+                    bench.on_select(_n, val, cost, cycle)
                 return _o(val, cost, cycle)
             comp._on_value_selection = sel
         if hasattr(comp, "_on_new_cycle"):
@@ -71,6 +74,7 @@ class Bench:
         self.channels.setdefault((src, dst), deque()).append((msg, prio))
 
     _reinjecting = None
+    ticks_enabled = True
 
     # -- transitions --------------------------------------------------------------------------
     def enabled(self, with_start=True):
@@ -88,7 +92,7 @@ class Bench:
             if q and dst not in laned and dst in self.comps:
                 out.append(("deliver", src, dst))
         for n, cbs in self.ticks.items():
-            if cbs and n in self.started:
+            if self.ticks_enabled and cbs and n in self.started:
                 out.append(("tick", n))
         return out
 
